@@ -5,6 +5,7 @@ From V Require Import Bytes BytesLemmas C15BitFmt C15Ebsp C15H264 C15Hevc
   C08Amf0 C08Flv C08Hevc C08Amf0Proofs C08FlvProofs.
 Import ListNotations.
 Open Scope Z_scope.
+Opaque K.
 Ltac Zify.zify_post_hook ::= Z.div_mod_to_equations.
 
 (* the Go decoders read back the field values the parameter sets were emitted from *)
